@@ -143,6 +143,10 @@ def _is_empty_literal(v: ast.AST) -> bool:
         and not v.args and not v.keywords
 
 
+def _is_none(e: ast.AST) -> bool:
+    return isinstance(e, ast.Constant) and e.value is None
+
+
 class Guards:
     """Reachability of statements of one function under valuations of named boolean atoms.
 
@@ -203,19 +207,29 @@ class Guards:
                     return (not v) if a.startswith("!") else v
                 return None
             if isinstance(e, ast.Compare) and len(e.ops) == 1 and isinstance(e.ops[0], (ast.Is, ast.IsNot)) and seen is not None \
-                    and isinstance(e.left, ast.Name) and isinstance(e.comparators[0], ast.Name):
-                # `x is SENTINEL` / `x is not SENTINEL` with SENTINEL a global: decided when every definition of x that can reach the
-                # test under the valuation is (a copy of) that very name, or none of them is
+                    and isinstance(e.left, ast.Name) and (isinstance(e.comparators[0], ast.Name) or _is_none(e.comparators[0])):
+                # `x is SENTINEL` / `x is not SENTINEL` with SENTINEL a global name or None: decided when every definition of x that
+                # can reach the test under the valuation is (a copy of) that very sentinel, or none of them can be it
                 x, s_ = e.left, e.comparators[0]
-                nx, ns = node_of(x), node_of(s_)
-                if nx is not None and not rd.defs_reaching(ns if ns is not None else nx, s_.id) and rd.defs_reaching(nx, x.id):
-                    origins = self._origins(x, nx, seen, rd, 0)
-                    if origins is not None:
-                        same = [isinstance(o, ast.Name) and o.id == s_.id for o in origins]
-                        if all(same):
-                            return isinstance(e.ops[0], ast.Is)
-                        if not any(same) and all(not isinstance(o, ast.Name) for o in origins):
-                            return isinstance(e.ops[0], ast.IsNot)
+                nx = node_of(x)
+                if nx is None or not rd.defs_reaching(nx, x.id):
+                    return None
+                if isinstance(s_, ast.Name):
+                    ns = node_of(s_)
+                    if rd.defs_reaching(ns if ns is not None else nx, s_.id):
+                        return None
+                    is_it = lambda o: isinstance(o, ast.Name) and o.id == s_.id
+                    cannot_be = lambda o: not isinstance(o, ast.Name)
+                else:
+                    is_it = _is_none
+                    cannot_be = lambda o: (isinstance(o, ast.Constant) and o.value is not None) or isinstance(
+                        o, (ast.List, ast.Dict, ast.Set, ast.Tuple, ast.ListComp, ast.SetComp, ast.DictComp, ast.JoinedStr, ast.Compare))
+                origins = self._origins(x, nx, seen, rd, 0)
+                if origins is not None:
+                    if all(is_it(o) for o in origins):
+                        return isinstance(e.ops[0], ast.Is)
+                    if all(cannot_be(o) for o in origins):
+                        return isinstance(e.ops[0], ast.IsNot)
                 return None
             if isinstance(e, ast.Name) and seen is not None and isinstance(e.ctx, ast.Load):
                 k = id(e)
@@ -290,12 +304,29 @@ class Guards:
                 if not (isinstance(st, (ast.Assign, ast.AnnAssign)) and st.value is not None):
                     return False
                 v = st.value
-                if isinstance(st, ast.Assign) and isinstance(st.targets[0], (ast.Tuple, ast.List)) and isinstance(v, (ast.Tuple, ast.List)) \
-                        and len(st.targets) == 1 and len(st.targets[0].elts) == len(v.elts):
+                if isinstance(st, ast.Assign) and isinstance(st.targets[0], (ast.Tuple, ast.List)):
+                    # positional unpacking of a tuple display, possibly handed over through a name (`r = (a, b); x, y = r`)
                     idx = [i for i, t in enumerate(st.targets[0].elts) if isinstance(t, ast.Name) and t.id == it.id]
-                    if not idx:
+                    if not idx or len(st.targets) != 1:
                         return False
-                    v = v.elts[idx[0]]
+                    packs = [(v, d)]
+                    if isinstance(v, ast.Name):
+                        packs = []
+                        for d2 in rd.defs_reaching(d, v.id):
+                            if d2 not in seen:
+                                continue
+                            st2 = self.g.stmt[d2]
+                            if not (isinstance(st2, ast.Assign) and len(st2.targets) == 1 and isinstance(st2.targets[0], ast.Name)):
+                                return False
+                            packs.append((st2.value, d2))
+                        if not packs:
+                            return False
+                    for pv, pd in packs:
+                        if not (isinstance(pv, (ast.Tuple, ast.List)) and len(pv.elts) == len(st.targets[0].elts)):
+                            return False
+                        if not self._empty(pv.elts[idx[0]], pd, val, seen, depth + 1):
+                            return False
+                    continue
                 if not self._empty(v, d, val, seen, depth + 1):
                     return False
             if any(n in seen for n in self._content_adders().get(it.id, [])):
